@@ -6,7 +6,7 @@ import (
 	"pgregory.net/rapid"
 )
 
-var c07SysCfg = SGenCfg{RFs: []int{3, 3, 2}, MinOps: 3, MaxOps: 8, FaultPct: 0, Blocks: 16,
+var c07SysCfg = SGenCfg{RFs: []int{3, 3, 2}, MinOps: 3, MaxOps: 8, FaultPct: 0, Blocks: 16, FillPct: 70,
 	W: map[string]int{"write": 36, "snapshot": 24, "sysrebuild": 30, "read": 4}}
 
 // TestC07System — the product's own rebuild (sync.Task.AddReplica, real sync
